@@ -142,24 +142,15 @@ example : decode Example.tetCfg (encode Example.tetFile) = .ok Example.tetFile :
     Example.tetFile_cells
 
 /-! non-vacuity of `permitted_roundtrip` (evaluation on one input, a test): an alternative layout of the
-    one-tetrahedron file — vertices in two spans (the second float-encoded), edges with 16-bit handles and
-    handle offset 0 in two spans, faces with variable valence, a skippable unknown chunk, the directory after the
-    topology, explicit padding — is valid, differs from the writer's bytes, and so reads to the same mesh -/
-def altLayout : Layout :=
-  { fileVersion := 7,
-    pieces := [ { spec := .vert 1 vertexEncodingDouble }, { spec := .vert 3 vertexEncodingFloat, pad := some 3 },
-                { spec := .edges 2 intEncodingU16 0 }, { spec := .skip 1234 0 0 [1, 2, 3] },
-                { spec := .edges 4 intEncodingU32 0 },
-                { spec := .faces 4 false intEncodingU8 intEncodingU8 0, flags := 0 },
-                { spec := .cells 1 true intEncodingNone intEncodingU16 1 },
-                { spec := .dirp }, { spec := .prop 0 3 }, { spec := .prop 0 1 }, { spec := .eof } ] }
-
-example : ValidLayout altLayout Example.tetFile = true := by decide
-set_option maxRecDepth 20000 in
-example : (encodeWith altLayout Example.tetFile).length = 480 := by decide
-set_option maxRecDepth 20000 in
-example : decode Example.polyCfg (encodeWith altLayout Example.tetFile) = .ok Example.tetFile :=
-  permitted_roundtrip _ _ _ Example.tetFile_wf ⟨altLayout, by decide, rfl⟩ ⟨rfl, rfl⟩ (by decide) (by decide) (by decide)
+    one-tetrahedron file (`Example.altLayout`) — vertices in two spans (the second float-encoded), edges with 16-bit handles and
+    different handle widths in two spans, faces in two spans (the second with handle offset 4), cells with
+    handle offset 1, two skippable chunks, the directory after the topology, the property values in two spans,
+    explicit padding, a non-mandatory flag — is valid, differs from the writer's bytes, and so reads to the same mesh -/
+example : decode Example.polyCfg (encodeWith Example.altLayout Example.tetFile) = .ok Example.tetFile :=
+  permitted_roundtrip _ _ _ Example.tetFile_wf ⟨Example.altLayout, Example.altLayout_valid, rfl⟩ ⟨rfl, rfl⟩
+    (by rw [Example.altLayout_length]; decide) (by decide) (by decide)
+example : (encodeWith Example.altLayout Example.tetFile).length ≠ (encode Example.tetFile).length := by
+  rw [Example.altLayout_length, Example.tetFile_length]; decide
 
 /-! test on concrete data (labelled as a test): the file of the empty mesh is header + EOF chunk -/
 example : (encode ⟨topoTypePolyhedral, [], [], [], [], []⟩).length = sizeFileHeader + sizeChunkHeader := by decide
